@@ -36,15 +36,19 @@ def make_case(rng):
     card = rng.choice([1, 2, 3, 5, 10, 40])
     random_values = rng.random() < 0.3
     low = rng.choice([0, 0, 5, -3])
+    if rng.random() < 0.04:
+        card, nf = rng.choice([1001, 1002, 1500]), min(nf, 3)     # a default range wider than the default bounds (which only concern random draws)
     high = low + rng.choice([card - 1, card, card + 3, 1000]) if random_values else 1000
     high = max(high, low + card - 1)
+    if not random_values and rng.random() < 0.3:
+        high = low + max(0, card - rng.choice([2, 3, 40]))        # bounds narrower than the default range: irrelevant when values are not drawn at random
     if random_values and rng.random() < 0.3:
         # bounds ending exactly at 0 / -1 / 1 (falsy and sign boundaries)
         high = rng.choice([0, 0, -1, 1])
         low = high - (card - 1) - rng.choice([0, 1, 20])
     ensure_rep = rng.random() < 0.5
     ns = rng.choice([1, 2, 7, 50, 400, 3000])
-    if rng.random() < 0.4:
+    if rng.random() < 0.4 or card > 1000:
         ns = max(1, card + rng.choice([-1, 0, 1]))
     if random_values:
         default_dom = ('random', low, high, card)
